@@ -102,7 +102,7 @@ def pipeline(ctx):
           ("MC_Extract", "MC_Extract_nodev.cfg", dict(workers=2, expect_violation=True)),
           ("MC_Extract", "MC_Extract_fixed.cfg", dict(workers=8, timeout=600))]
     gen = [("ExtractGen", "Gen_Extract.cfg" if q else "Gen_Extract_deep.cfg", dict(workers=1, timeout=900))]
-    obs, verdicts = standard_pipeline(ctx, sub=SUB, mc=mc, gen=gen, trace=TRACE, post_gen=post, dedupe_key=_key,
+    obs, verdicts = standard_pipeline(ctx, checked=True, sub=SUB, mc=mc, gen=gen, trace=TRACE, post_gen=post, dedupe_key=_key,
                                       random_n=6000 if q else 200000, nontrivial=nontrivial, jobs=12, chunk=50000)
     # model drift: the observation differs from the mechanism model although the model names no deviation (never a violation)
     drift = {}
